@@ -157,10 +157,11 @@ def _linear(C):
                                    "J1": [env.get(str(toz(x)), 0.0) for x in J1.ravel()], "J2": [env.get(str(toz(x)), 0.0) for x in J2.ravel()],
                                    "lam": env.get("lam", 0.0)}}
 
-            C.oblige(f"p{C.paths}.{f}.linear", p.pc + defined, viol, on_model=on_model, inputs=inputs,
+            C.oblige(f"p{C.paths}.{f}.linear", p.pc + defined, viol, on_model=on_model, inputs=inputs, key=f"C05|{w.func}|linearity|{f}",
+                     keep=list(J1.ravel()) + list(J2.ravel()) + [lam],
                      sample=f"{w.func}: {f}(l*J1+J2) == l*{f}(J1)+{f}(J2) for all reals on this path")
 
-    paths = explore(run, max_paths=300 if C.tier == "quick" else 2000, on_path=on_path)
+    paths = explore(run, max_paths=300 if C.tier == "quick" else 2000, on_path=on_path, seeds=C.seed_envs(inputs, n=2))
     C.decisions += sum(len(p.decisions) for p in paths)
     if explore.truncated:
         C.note_inconclusive("path-budget", "path budget hit")
@@ -205,9 +206,10 @@ def _homog(C):
                         "replay": {"kind": "homog", "wrapper": name, "field": f, "args": {k: v.tolist() for k, v in fargs.items()}, "lam": env.get("lam", 1.0)}}
 
             C.oblige(f"p{C.paths}.{f}.homogeneous", p.pc + defined, viol, lemmas=lem, on_model=on_model, inputs=inputs,
+                     key=f"C05|{w.func}|homogeneity|{f}", keep=list(J.ravel()) + [lam],
                      sample=f"{w.func}: {f}(l*J) == l*{f}(J) for all l>0 on this path")
 
-    paths = explore(run, max_paths=200 if C.tier == "quick" else 1000, on_path=on_path)
+    paths = explore(run, max_paths=200 if C.tier == "quick" else 1000, on_path=on_path, seeds=C.seed_envs(inputs, n=2))
     C.decisions += sum(len(p.decisions) for p in paths)
     if explore.truncated:
         C.note_inconclusive("path-budget", "path budget hit")
